@@ -54,8 +54,20 @@ Definition decode_event (req cur : str) (a : str) : pn_event :=
               (List.map (subst req cur) ps)
   end.
 
-Definition cur_nick (cfg : pn_cfg) (st : pn_state) : str :=
-  match st with [] => pc_nick cfg | _ => st end.
+Definition cur_nick (cfg : pn_cfg) (st : pn_state) : str := own_nick cfg st.
+
+Definition k_NICKLEN := Eval vm_compute in bs "NICKLEN".
+Definition k_MAXNICKLEN := Eval vm_compute in bs "MAXNICKLEN".
+
+(* Client.GetServerOption (panics without tracking) *)
+Definition show_opt (cfg : pn_cfg) (st : pn_state) (key : str) : str :=
+  if pc_tracking cfg then
+    match alookup key (ps_opts st) with Some v => 61 :: hex v | None => [45] end
+  else [33].
+
+Definition show_state (cfg : pn_cfg) (st : pn_state) : str :=
+  bs ";n=" ++ match get_nick cfg st with Ok n => hex n | Panic => [33] end ++
+  bs ";l=" ++ show_opt cfg st k_NICKLEN ++ [47] ++ show_opt cfg st k_MAXNICKLEN.
 
 Definition show_nick (cfg : pn_cfg) (st : pn_state) : str :=
   match get_nick cfg st with Ok n => hex n | Panic => [33] end.
@@ -66,14 +78,14 @@ Fixpoint run_events (cfg : pn_cfg) (k : nat) (st : pn_state) (req : str) (evs : 
   | a :: r =>
       let e := decode_event req (if pc_tracking cfg then cur_nick cfg st else pc_nick cfg) a in
       let step := if streqb (e_cmd e) s_userNICK
-                  then Ok (st, [cmd_nick (nth 0 (e_params e) [])])
+                  then Ok (st, [commands_nick st (nth 0 (e_params e) [])])
                   else pn_step cfg st e in
       match step with
       | Panic =>
-          bs "|" ++ show_nat k ++ bs ":!;n=" ++ show_nick cfg st ++ run_events cfg (S k) st req r
+          bs "|" ++ show_nat k ++ bs ":!" ++ show_state cfg st ++ run_events cfg (S k) st req r
       | Ok (st', outs) =>
           bs "|" ++ show_nat k ++ [58] ++ hexlist (List.map wire_of outs) ++
-          bs ";r=" ++ route_letter outs ++ bs ";n=" ++ show_nick cfg st' ++
+          bs ";r=" ++ route_letter outs ++ show_state cfg st' ++
           run_events cfg (S k) st' (next_req req outs) r
       end
   end.
